@@ -26,6 +26,7 @@ type Engine struct {
 	wsBusy    map[*ssa.Function]bool
 	ufDecls   map[string]string
 	repoDir   string
+	srcLines  map[string][]string
 }
 
 type writeSet struct {
@@ -293,12 +294,26 @@ func (eng *Engine) specWrites(spec *FuncSpec, c *ssa.CallCommon, ws *writeSet, a
 		vals = append(vals, c.Value)
 	}
 	vals = append(vals, c.Args...)
+	whole := false
+	for _, m := range spec.Modifies {
+		whole = whole || m.Whole
+	}
 	for _, a := range vals {
 		switch u := a.Type().Underlying().(type) {
 		case *types.Pointer:
 			addT(u.Elem())
+			if st, ok := u.Elem().Underlying().(*types.Struct); ok && whole {
+				// x[*] on a slice field of a pointer argument: the element blocks of its slice fields may be written
+				for i := 0; i < st.NumFields(); i++ {
+					if sl, ok := st.Field(i).Type().Underlying().(*types.Slice); ok {
+						addT(types.NewArray(sl.Elem(), 1))
+					}
+				}
+			}
 		case *types.Slice:
 			addT(types.NewArray(u.Elem(), 1))
+		case *types.Map:
+			ws.maps = append(ws.maps, u) // modifies m[..] on a map argument (C05)
 		}
 	}
 }
